@@ -261,7 +261,8 @@ class TcpclAdaptor(AbstractAdaptor):
         :param cl_conn: The connection object.
         :param next_hop: The desired next-hop or None
         '''
-        pend_data = self._sess_wait.get(next_hop, [])
+        # each waiting bundle is sent once
+        pend_data = self._sess_wait.pop(next_hop, [])
         for data in pend_data:
             cl_conn.send_bundle_data(data)
 
@@ -302,13 +303,18 @@ class TcpclAdaptor(AbstractAdaptor):
                 cl_conn.send_bundle_data(data)
             else:
                 self._logger.info('Need session with %s', next_nodeid)
+                need_connect = next_nodeid not in self._cl_conn_nodeid
+                if need_connect:
+                    # a route that cannot be connected fails here,
+                    # before the data are kept for a later session
+                    address = tx_params['address']
+                    port = tx_params.get('port', 4556)
+
                 if next_nodeid not in self._sess_wait:
                     self._sess_wait[next_nodeid] = []
                 self._sess_wait[next_nodeid].append(data)
 
-                if next_nodeid not in self._cl_conn_nodeid:
-                    address = tx_params['address']
-                    port = tx_params.get('port', 4556)
+                if need_connect:
                     self._logger.info('Connecting to [%s]:%d', address, port)
                     self.agent_obj.connect(address, port)
 
